@@ -370,8 +370,12 @@ def case_stream_search(ctx, rng, idx):
     tag = {"wrapper": wrapper, "solver": name, "K": K, "M": M, "Ns": ns, "P": P, "noise": noise,
            "max_iterations": s.max_iterations}
     w = IA.GreedStreamIASolver(s) if wrapper == "greedy" else IA.BruteForceStreamIASolver(s)
+    twice = idx % 3 == 2         # the wrapper object is used for two searches in a row
+    tag["solved_twice"] = twice
     try:
         w.solve(ns, P)
+        if twice:
+            w.solve(ns, P)
     except RuntimeError as e:
         if name == "mmse" and "Lagrange" in str(e):
             ctx.tally("mmse-declines")
